@@ -53,6 +53,11 @@ add("C10", "translation_validation",
     "The reference snapshot is trusted to be the pinned version. Tables filled by init() code are not covered by the constant obligation (only by the behavioural comparison). Encoder-side repairs made in /repo are outside this property (it constrains the decoder).",
     "reference-build vs current-build differential + Coq equality obligations on regenerated constants", "6/C10")
 
+add("C03", "other",
+    "Partial. Proved in Coq: all goroutines spawned by the library recover panics (fact regenerated from the AST on every run), and the decode side of the hand-off protocol cannot deadlock and does finite work for every n / interleaving / failure point. Searched: structure-aware mutants (forged headers with valid checksum, frame lengths, payload prefixes, transform/entropy tables, truncations at any length, garbage) decoded in child processes with a watchdog, reading on after errors.",
+    "Termination and panic-freedom inside unmodelled codec inverses is searched only; memory exhaustion and runtime aborts are outside the model.",
+    "Coq obligations on regenerated structure facts + protocol theorems; child-process mutant decoding with watchdog", "6/C03")
+
 NOT_YET = {}
 def main():
     props = [json.loads(l)["id"] for l in open(os.path.join(ROOT, "properties.jsonl"))]
